@@ -20,7 +20,7 @@ PROP = dict(
              "deliberately broken expressions), optional validate on the result, bound to int/int64/float64/string/bool/any/pointer/slice fields; "
              "(b) value x constraint pairs: ints, strings, floats, bools, slices with eq ne min max gt lt gte lte len oneof required number, structs with "
              "validate field tags (also behind pointers), bound by ${k} or by prefix, present / absent+optional; the harness substitutes placeholders from the tag's "
-             "syntax tree, evaluates with expr.Compile/Run and validator.Var/Struct directly; non-trivial = all; distinct = distinct scenario lines",
+             "syntax tree, evaluates with expr.Compile/Run and validator.Var/Struct directly; 30% of the holders also carry an optional wire dependency (both property groups exist) and are started 4 times, every start must agree (oracle start-unstable); non-trivial = all; distinct = distinct scenario lines",
         trusted_base=COMMON_TB + ["the go/ast facts translator for Facts.builtinProcessors / orderConsts",
                                   "expr-lang/expr and go-playground/validator themselves (opaque; called directly by the oracle)",
                                   "strconv2 / mapstructure as modelled in Ioc.Value (validated by the correspondence)"],
